@@ -772,8 +772,10 @@ fn check_valid_basic(doc: &Document, want: &[ObjectId], max_calls: &AtomicU64) -
 
 /// check_valid_basic plus every other form of the same enumeration.
 fn check_valid(doc: &Document, want: &[ObjectId], max_calls: &AtomicU64) -> Result<(), String> {
+    let t0 = std::time::Instant::now();
     check_valid_basic(doc, want, max_calls)?;
-    check_forms(doc, want, true, true, &|_| {})
+    eprintln!("basic {:?}", t0.elapsed());
+    check_forms(doc, want, true, true, &|s| eprintln!("{} at {:?}", s, t0.elapsed()))
 }
 
 /// Malformed tree, in process: the step-by-step run (termination, only page objects), then every other form.
